@@ -103,7 +103,7 @@ theorem C13_atomic_streamed_false :
     let t2 := (addBlock t1 f4bHeader f4bProof).1
     (blockChunk t0 11 11).2 = .ok ∧
     (addBlock t1 f4bHeader f4bProof).2 = .err .orphan ∧
-    t2.view = t0.view ∧ t2.decoding = t0.decoding ∧
+    t2.view = t1.view ∧ t2.decoding = t0.decoding ∧  -- (the chunk itself only set the monitors' `saw_block`)
     t0.ldec = false ∧ t2.ldec = true ∧            -- the state before the chunk is not restored
     (blockChunk t0 12 12).2 = .ok ∧               -- a correct next streamed block: fine before,
     (blockChunk t2 12 12).2 = .panic := by        -- aborts the signer after the rejection
